@@ -8,8 +8,11 @@ import (
 	"encoding/json"
 	"fmt"
 	"math"
+	"os"
+	"os/exec"
 	"runtime"
 	"strconv"
+	"strings"
 	"sync"
 	"sync/atomic"
 	"testing"
@@ -23,6 +26,7 @@ import (
 type valCase struct {
 	Kind  string `json:"kind"` // lat | lng | time
 	Value int64  `json:"value"`
+	Arch  string `json:"arch,omitempty"` // set when the case fails only in the build for that GOARCH
 }
 
 const sentinel = 0x7FFFFFFF
@@ -150,7 +154,7 @@ func checkTime(x uint32) string {
 	if x%65537 < 4 || x < 20000 || x > 0xFFFFC000 {
 		for _, off := range zoneOffsets {
 			for _, o := range []int{off, int(x), -int(x)} {
-				if o < -86400*365*80 || o > 86400*365*80 {
+				if int64(o) < -86400*365*80 || int64(o) > 86400*365*80 {
 					continue
 				}
 				tz := t.In(time.FixedZone("Z", o))
@@ -272,12 +276,112 @@ func sweep(kind string, stride uint64, printedStride uint64, f func(v uint32, pr
 	return count.Load()
 }
 
+// archStride is the stride of the enumeration repeated in the test binary
+// built for a 32-bit architecture.
+const archStride = 4099
+
+// archValues calls f for every value of the 32-bit enumeration: the stride
+// grid plus the boundaries.
+func archValues(f func(v uint32) bool) {
+	for v := uint64(0); v < 1<<32; v += archStride {
+		if !f(uint32(v)) {
+			return
+		}
+	}
+	for _, c := range []int64{0, 1 << 30, -(1 << 30), 1 << 31, sentinel, 1 << 29, 0xFFFFFFFF, 0x10000000, 11930464, -11930464, 1 << 24, -(1 << 24)} {
+		for d := int64(-3); d <= 3; d++ {
+			if !f(uint32(c + d)) {
+				return
+			}
+		}
+	}
+}
+
+// archWorker is what the 32-bit build of this binary runs: the same value
+// checks, first failure on stdout.
+func archWorker() {
+	n := 0
+	for _, k := range []string{"lat", "lng", "time"} {
+		bad := false
+		archValues(func(v uint32) bool {
+			n++
+			c := valCase{Kind: k, Value: int64(v)}
+			if k != "time" {
+				c.Value = int64(int32(v))
+			}
+			if msg := checkCase(c); msg != "" {
+				fmt.Printf("MISMATCH %s %d %s\n", c.Kind, c.Value, msg)
+				bad = true
+				return false
+			}
+			return true
+		})
+		if bad {
+			return
+		}
+	}
+	fmt.Printf("ARCH-OK %d %s\n", n, runtime.GOARCH)
+}
+
+// otherArch runs the value checks in the test binary built for GOARCH=386
+// (the driver builds it and names it in VERIF_C17_ARCH386): what a coordinate
+// or a time converts to does not depend on the size of int.
+func otherArch(rec *hx.Recorder) {
+	bin := os.Getenv("VERIF_C17_ARCH386")
+	if bin == "" {
+		rec.Note("arch-386: no GOARCH=386 build of this check available, sub-check not run")
+		return
+	}
+	cmd := exec.Command(bin)
+	cmd.Env = append(os.Environ(), "VERIF_C17_WORKER=1", "VERIF_OUT=")
+	var out, errb bytes.Buffer
+	cmd.Stdout, cmd.Stderr = &out, &errb
+	err := cmd.Run()
+	switch {
+	case err == nil && strings.Contains(out.String(), "ARCH-OK "):
+		var n int64
+		fmt.Sscanf(out.String()[strings.Index(out.String(), "ARCH-OK ")+8:], "%d", &n)
+		rec.Eval("arch-386", n)
+		rec.NonTrivialEnum(n)
+	case strings.Contains(out.String(), "MISMATCH "):
+		line := out.String()[strings.Index(out.String(), "MISMATCH ")+9:]
+		if i := strings.IndexByte(line, '\n'); i >= 0 {
+			line = line[:i]
+		}
+		var c valCase
+		var rest string
+		if parts := strings.SplitN(line, " ", 3); len(parts) == 3 {
+			c.Kind = parts[0]
+			c.Value, _ = strconv.ParseInt(parts[1], 10, 64)
+			rest = parts[2]
+		}
+		c.Arch = "386"
+		rec.Eval("arch-386", 1)
+		rec.Fail("arch-386", "", "compiled for GOARCH=386: "+rest, c)
+	case strings.Contains(errb.String(), "panic:"):
+		rec.Eval("arch-386", 1)
+		rec.Fail("arch-386", "", "compiled for GOARCH=386 the value checks crash: "+strings.SplitN(errb.String()[strings.Index(errb.String(), "panic:"):], "\n", 2)[0], valCase{Kind: "lat", Arch: "386"})
+	default:
+		// the sandbox cannot run 32-bit binaries, or the child died for
+		// another reason: not a verdict
+		rec.Note(fmt.Sprintf("arch-386: child ended with %v and no verdict", err))
+	}
+}
+
 func TestC17(t *testing.T) {
+	if os.Getenv("VERIF_C17_WORKER") == "1" {
+		archWorker()
+		return
+	}
 	hx.Main(t, "C17", func(rec *hx.Recorder) {
 		if rp, ok := hx.LoadReplay(); ok {
 			var c valCase
 			json.Unmarshal(rp.Case, &c)
 			rec.Eval("replay", 1)
+			if c.Arch != "" {
+				otherArch(rec)
+				return
+			}
 			if msg := checkCase(c); msg != "" {
 				rec.Fail(rp.Sub, "", msg, c)
 			}
@@ -304,9 +408,9 @@ func TestC17(t *testing.T) {
 			rec.Exhaustive("every 257th of the 2^32 values plus +-3 around 0, +-2^30, 2^31, the sentinel, 2^29, 2^32-1 and the system-time marker (printed form on every 16th of those)")
 		}
 		rec.Undecided(undecided.Load())
-		rec.Sample(valCase{"lat", 1 << 30})
-		rec.Sample(valCase{"lng", -2147483648})
-		rec.Sample(valCase{"time", 0xFFFFFFFE})
+		rec.Sample(valCase{Kind: "lat", Value: 1 << 30})
+		rec.Sample(valCase{Kind: "lng", Value: -2147483648})
+		rec.Sample(valCase{Kind: "time", Value: 0xFFFFFFFE})
 
 		// sampled: time and coordinate fields through Encode/Decode
 		vals := []int64{1, 31, 0x0FFFFFFF, 0x10000000, 1000000000, 0xFFFFFFFE}
@@ -325,20 +429,23 @@ func TestC17(t *testing.T) {
 				a.Records = append(a.Records, r)
 				var buf bytes.Buffer
 				if err := fit.Encode(&buf, f, ord); err != nil {
-					rec.Fail("fields", "", "Encode: "+err.Error(), valCase{"time", sec})
+					rec.Fail("fields", "", "Encode: "+err.Error(), valCase{Kind: "time", Value: sec})
 					continue
 				}
 				g, err := fit.Decode(bytes.NewReader(buf.Bytes()))
 				if err != nil {
-					rec.Fail("fields", "", "Decode: "+err.Error(), valCase{"time", sec})
+					rec.Fail("fields", "", "Decode: "+err.Error(), valCase{Kind: "time", Value: sec})
 					continue
 				}
 				ga, _ := g.Activity()
 				if len(ga.Records) != 1 || !ga.Records[0].Timestamp.Equal(r.Timestamp) || ga.Records[0].PositionLat != r.PositionLat || ga.Records[0].PositionLong != r.PositionLong {
-					rec.Fail("fields", "", fmt.Sprintf("record (t=%d s, lat %d, lng %d) came back as %+v", sec, lat, lng, ga.Records), valCase{"time", sec})
+					rec.Fail("fields", "", fmt.Sprintf("record (t=%d s, lat %d, lng %d) came back as %+v", sec, lat, lng, ga.Records), valCase{Kind: "time", Value: sec})
 				}
 			}
 		}
 		rec.Eval("fields", int64(2*len(vals)))
+		if hx.FirstShard() {
+			otherArch(rec)
+		}
 	})
 }
